@@ -7,8 +7,12 @@ import time
 from .facts import strip_generics, AnchorError
 
 VERIF = os.path.dirname(os.path.dirname(os.path.abspath(__file__)))
-EVIDENCE_DIR = os.environ.get("VF_EVIDENCE_DIR") or os.path.join(VERIF, "evidence")
-REPLAY_DIR = os.path.join(EVIDENCE_DIR, "replay")
+def evidence_dir():
+    return os.environ.get("VF_EVIDENCE_DIR") or os.path.join(VERIF, "evidence")
+
+
+def replay_dir():
+    return os.path.join(evidence_dir(), "replay")
 KNOWN = os.path.join(VERIF, "known_findings.txt")
 
 
@@ -114,7 +118,7 @@ class Ctx:
         self.check_floors()
         known, fixed = load_known()
         viol = self.violations()
-        os.makedirs(REPLAY_DIR, exist_ok=True)
+        os.makedirs(replay_dir(), exist_ok=True)
         new_v = []
         known_v = []
         for key, i in viol:
@@ -132,7 +136,7 @@ class Ctx:
         for key, i, desc in known_v:
             lines.append("KNOWN-FINDING: property=%s %s [%s]" % (self.prop, desc, key))
         for key, i in new_v:
-            rp = os.path.join(REPLAY_DIR, "%s-%s.json" % (self.prop, re.sub(r"[^A-Za-z0-9_.-]+", "_", key)[:150]))
+            rp = os.path.join(replay_dir(), "%s-%s.json" % (self.prop, re.sub(r"[^A-Za-z0-9_.-]+", "_", key)[:150]))
             with open(rp, "w") as f:
                 json.dump(dict(property=self.prop, key=key, rule_text=self.rule_text.get(i.rule, ""), **i.to_json()), f, indent=1)
             lines.append("VIOLATION property=%s replay=%s" % (self.prop, rp))
@@ -185,8 +189,8 @@ class Ctx:
             assumptions=self.assumptions, wall_s=round(time.time() - self.t0, 2),
             violations=len(new_v),
         )
-        os.makedirs(EVIDENCE_DIR, exist_ok=True)
-        with open(os.path.join(EVIDENCE_DIR, "%s.json" % self.prop), "w") as f:
+        os.makedirs(evidence_dir(), exist_ok=True)
+        with open(os.path.join(evidence_dir(), "%s.json" % self.prop), "w") as f:
             json.dump(ev, f, indent=1)
         for l in lines:
             print(l)
